@@ -474,6 +474,11 @@ def rsrc(ctx, pid):
             continue
         for d in f.decos:
             if d.split(".")[-1] in ("lru_cache", "cache", "cached_property") or "memoize" in d:
+                # a module-level function that touches nothing but its (hashable, hence immutable) arguments
+                # is a pure function of them: remembering its results changes no answer
+                effs = [e for e in ctx.E.summaries().get(q, ()) if e.loc is not None and e.loc[0][0] != "local"]
+                if f.cls is None and not effs and d.split(".")[-1] != "cached_property":
+                    continue
                 mbad = mbad or (f, d)
     if mbad:
         ctx.bad("no-memoised-reader:%s" % pid, mbad[0].loc(), "%s is wrapped in `%s`: its result would be remembered although it depends on the db / root, which change" % (fkey(mbad[0]), mbad[1]))
